@@ -108,6 +108,7 @@ type Session struct {
 
 	ctx          context.Context
 	cancel       context.CancelFunc
+	stopTimers   func() // ends the heartbeat and test-request goroutines of the current logon
 	errorHandler func(error)
 	timeLocation *time.Location
 	mu           sync.Mutex
@@ -564,6 +565,18 @@ func (s *Session) start() error {
 		return err
 	}
 
+	// A further logon on the same connection replaces the timers of the
+	// previous one instead of running next to them.
+	if s.stopTimers != nil {
+		s.stopTimers()
+	}
+	timersCtx, cancelTimers := context.WithCancel(s.ctx)
+	s.stopTimers = func() {
+		cancelTimers()
+		incomingMsgTimer.Close()
+		outgoingMsgTimer.Close()
+	}
+
 	s.Router.HandleIncoming(simplefixgo.AllMsgTypes, func(msg []byte) bool {
 		incomingMsgTimer.Refresh()
 		if s.getState() == WaitingTestReqAnswer {
@@ -584,7 +597,7 @@ func (s *Session) start() error {
 		for {
 			incomingMsgTimer.TakeTimeout()
 			select {
-			case <-s.ctx.Done():
+			case <-timersCtx.Done():
 				return
 			default:
 			}
@@ -610,7 +623,7 @@ func (s *Session) start() error {
 		for {
 			outgoingMsgTimer.TakeTimeout()
 			select {
-			case <-s.ctx.Done():
+			case <-timersCtx.Done():
 				return
 			default:
 			}
